@@ -65,6 +65,26 @@ Proof.
     + pose proof (suspended_pops_no_user a1 S' D) as Q. destruct (a_inflight (pop1 a1)) as [[?|?]|]; [reflexivity|destruct Q|reflexivity].
 Qed.
 
+(* how the situation arises: whenever an actor's own step ends with its mailbox suspended — the step in which it failed
+   (ReportAbnormal / the panic path suspend it) or began a restart — it has no user message in flight: the message it
+   was processing had been taken out, and the pop at the end of the step takes none from a suspended mailbox *)
+Theorem own_step_ending_suspended_is_waiting s u s' o a' :
+  kstep roles s (LRun u) = Some (s', o) -> get s' (Z.to_nat u) = Some a' -> a_susp a' = true -> waiting (a_tok a') a'.
+Proof.
+  cbn [kstep]. destruct (run_actor roles s (Z.to_nat u)) as [[s1 o1]|] eqn:E; [|discriminate]. intros H; injection H as <- <-.
+  intros Hg Hs. split; [reflexivity|]. split; [exact Hs|].
+  destruct (get s (Z.to_nat u)) as [au|] eqn:Eu; [|unfold run_actor in E; rewrite Eu in E; discriminate].
+  destruct (a_inflight au) as [m|] eqn:Em; [|unfold run_actor in E; rewrite Eu, Em in E; discriminate].
+  rewrite (run_actor_inner roles s (Z.to_nat u) au m Eu Em) in E.
+  set (s0 := upd_actor s (Z.to_nat u) (w_inflight None)) in *.
+  assert (Ein : run_inner roles s0 (Z.to_nat u) m = (s1, o1)) by (inversion E; reflexivity).
+  pose proof (uq_run_inner _ _ _ _ _ _ Ein) as Q.
+  assert (G0 : get s0 (Z.to_nat u) = Some (w_inflight None au)) by (apply get_upd_actor_same; exact Eu).
+  destruct (Q _ _ G0) as (a1 & G1 & (I1 & _)). cbn [a_inflight w_inflight] in I1.
+  rewrite get_normalize', G1 in Hg. inversion Hg; subst a'. rewrite pop1_susp' in Hs.
+  pose proof (suspended_pops_no_user a1 Hs I1) as P. unfold inflight_user. destruct (a_inflight (pop1 a1)) as [[?|?]|]; [reflexivity|destruct P|reflexivity].
+Qed.
+
 (* over any run without a marker for the address: the actor is still waiting at the end, hence at every step in between *)
 Theorem no_user_run ls : forall s s' os u a,
   RI s -> get s u = Some a -> is_sys (a_tok a) = false -> waiting (a_tok a) a ->
